@@ -39,6 +39,9 @@ PROGRAMS = [
     ("p_lam2", '??λ2|__"";†', "[('T', I(inputs,0)), ('T', I(inputs,1)), ('S', 2, [I(inputs,0), I(inputs,1)], 3)]"),
     ("p_lam2_implicit_args", 'λ2|__"";†?', "[('T', I(inputs,0)), ('T', I(inputs,1)), ('S', 2, [I(inputs,0), I(inputs,1)], 3), ('T', I(inputs,2))]"),
     ("p_fn2", '@f:2|__"?;??@f;?', "[('T', I(inputs,0)), ('T', I(inputs,1)), ('S', 2, [I(inputs,0), I(inputs,1)], 2), ('T', I(inputs,2)), ('T', I(inputs,3))]"),
+    ("p_lam_empty_result", '?λ_;†?', "[('T', I(inputs,0)), ('S', 2, [I(inputs,0)], 1), ('T', I(inputs,1))]"),
+    ("p_lam2_empty_result", '??λ2|__;†?', "[('T', I(inputs,0)), ('T', I(inputs,1)), ('S', 2, [I(inputs,0), I(inputs,1)], 1), ('T', I(inputs,2))]"),
+    ("p_nested_lam_empty_result", '??λ2|__λ_;†";†', "[('T', I(inputs,0)), ('T', I(inputs,1)), ('S', 2, [I(inputs,0), I(inputs,1)], 1), ('S', 3, None, 1), ('S', 2, [I(inputs,0), I(inputs,1)], 1)]"),
     ("p_lam_explicit_only", "???λ0|??;†?", "[('T', I(inputs,k)) for k in range(6)]"),
     ("p_loop_reads", '2(?_)"', "[('T', I(inputs,k)) for k in range(4)]"),
     ("p_list_items", '⟨"|?⟩?', "[('T', I(inputs,k)) for k in range(4)]"),
@@ -61,7 +64,7 @@ def prog_fn(name, prog, expected, excl, twin=False):
         "        for _ in range(e[3]):",
         "            if pos >= len(log) or log[pos][0] != 'S' or log[pos][1] != e[1]: return explain('scope read', pos, e)",
         "            vals.append(log[pos][2]); pos += 1",
-        "        if not cyc_ok(vals, e[2]): return explain('scope cycle', vals, e[2])",
+        "        if e[2] is not None and not cyc_ok(vals, e[2]): return explain('scope cycle', vals, e[2])",
         "if pos != len(log): return explain('extra reads', pos, len(log))",
         "if len(ctx.inputs) != 1: return explain('scope depth', len(ctx.inputs))",
         "ntop = sum(1 for e in exp if e[0] == 'T')",
